@@ -441,6 +441,10 @@ def weave(op_file, cfg):
         if lab not in handlers:
             raise WeaveError(f"no closure labelled `{lab}` in the extraction of {op}")
         h = handlers[lab]
+        if h.get("unmodelled_closures"):
+            # the verifier knows nothing about a closure handed to a library function: obligations depending on it
+            # would fail for no semantic reason, so the unit is undecided (bounded stand-in), never a violation
+            raise WeaveError(f"closure `{lab}`: a closure literal is handed to a function the weaver has no rule for: {h['unmodelled_closures'][0]}")
         body, nsites = fill_body(lab, h["body"], invs, tokens, h["loops"], parts, nogate, extratag)
         used.add(lab)
         meta["handlers"][lab] = {"sites": nsites, "trace_events": h["trace_events"], "loops": h["loops"], "lines": body.count("\n") + 1}
